@@ -101,10 +101,6 @@ def n_accessor_gap(ref, src):
                 if has_comment(src.gaps[gi]):
                     src.gaps[gi] = repl
                     n += 1
-            # a numeric name spelled with a leading dot directly after the keyword (`get.5(){}`)
-            if src.gaps[node.first + 1] == '' and node.fields[0].kind == 'Num':
-                src.gaps[node.first + 1] = ' '
-                n += 1
     return n
 
 
